@@ -15,6 +15,10 @@
 (* it carries change = sum - target (makeBtcTx: the network fee is taken   *)
 (* out of the payment outputs, so inputs = payment + change + fee share).  *)
 (*                                                                         *)
+(* Outpoints are FULL outpoints (transaction id and output index): two     *)
+(* outputs of one transaction are different outpoints with their own       *)
+(* values, and the set transition is stated on them.                       *)
+(*                                                                         *)
 (* PropC26 (invariants): unspent and spent sets are disjoint, no outpoint  *)
 (* is selected twice (cnt), every spent outpoint was selected exactly once,*)
 (* value is conserved (unspent + spent = deposited), and the last built    *)
@@ -25,7 +29,9 @@
 (***************************************************************************)
 EXTENDS Integers, Sequences, FiniteSets, TLC
 
-CONSTANTS MaxOp,       \* outpoints are 1..MaxOp, created in this order
+CONSTANTS NTx, Idxs,   \* an outpoint is <<txid, output index>> with txid in 1..NTx, index in Idxs: several
+                       \* outpoints share a transaction id (a relayed withdrawal pays the multisig and returns
+                       \* change to it; a deposit transaction may have several outputs to the redeem script)
           Vals,        \* values a new outpoint may carry
           Targets,     \* payment amounts
           MinChanges   \* minimum-change settings
@@ -35,7 +41,9 @@ VARIABLES val,         \* outpoint -> value (0: not created yet)
           last         \* outcome of the last withdrawal
 
 vars == <<val, utxo, stxo, cnt, last>>
-Ops == 1..MaxOp
+Ops == (1..NTx) \X Idxs
+TxOf(o) == o[1]
+Before(x, y) == x[1] < y[1] \/ (x[1] = y[1] /\ x[2] < y[2])      \* creation order used by the model: lexicographic
 NoTx == [res |-> "none", target |-> 0, mc |-> 0, sum |-> 0, change |-> 0, insum |-> 0]
 
 RECURSIVE SumOver(_, _)
@@ -53,7 +61,7 @@ Init == /\ val = [o \in Ops |-> 0] /\ utxo = {} /\ stxo = {} /\ cnt = [o \in Ops
 
 \* a deposit to the redeem script confirms (addUtxos)
 Deposit(v) == /\ Created # Ops
-              /\ LET o == CHOOSE x \in Ops : val[x] = 0 /\ \A y \in Ops : val[y] = 0 => x <= y IN
+              /\ LET o == CHOOSE x \in Ops : val[x] = 0 /\ \A y \in Ops : (val[y] = 0 /\ y # x) => Before(x, y) IN
                    /\ val' = [val EXCEPT ![o] = v] /\ utxo' = utxo \cup {o}
               /\ UNCHANGED <<stxo, cnt>> /\ last' = NoTx
 
@@ -84,5 +92,8 @@ Balanced   == last.res = "ok" =>
                  /\ last.change = last.sum - last.target
                  /\ last.insum = last.target + last.change                \* inputs = payment (incl. fee share) + change
                  /\ (last.change = 0 \/ last.change >= last.mc)
-PropC26 == Disjoint /\ OnceOnly /\ Conserved /\ Balanced
+\* siblings (same transaction id, other index) are independent: spending one never moves another (follows from the
+\* clauses above on full outpoints; stated because the implementation once matched outpoints by transaction id only)
+Siblings   == \A o \in Ops : (cnt[o] = 0 /\ val[o] # 0) => o \in utxo
+PropC26 == Disjoint /\ OnceOnly /\ Conserved /\ Balanced /\ Siblings
 =============================================================================
